@@ -94,7 +94,8 @@ class SpecFn:
 
 
 class UF:
-    def __init__(self, name, argkinds, reskind, native=None):
+    def __init__(self, name, argkinds, reskind, native=None, raw=False):
+        self.raw = raw  # use the engine's own uninterpreted function of this exact name
         self.name = name
         self.argkinds = [parse_kind(k) for k in argkinds]
         self.reskind = parse_kind(reskind)
@@ -143,8 +144,8 @@ class Registry:
         self.specfns[name] = f
         return f
 
-    def uf(self, name, argkinds, reskind, native=None):
-        u = UF(name, argkinds, reskind, native)
+    def uf(self, name, argkinds, reskind, native=None, raw=False):
+        u = UF(name, argkinds, reskind, native, raw)
         self.ufs[name] = u
         return u
 
